@@ -174,6 +174,24 @@ def project_motl(df):
     return out, ids
 
 
+def invalid_projection(rows, ids):
+    """Names the first projected value that is not an abstract value (off the lattice, not finite, not a cube rotation)."""
+    for i, r in enumerate(rows):
+        for f, v in r.items():
+            vals = v if f in ("x", "s") else [v]
+            if f == "R":
+                if v is None:
+                    return "particle %d: orientation is not a cube rotation" % (i + 1)
+                continue
+            for w in vals:
+                if not isinstance(w, int):
+                    return "particle %d field %s: %r" % (i + 1, f, w)
+    for i, w in enumerate(ids):
+        if not isinstance(w, int):
+            return "particle %d subtomo_id: %r" % (i + 1, w)
+    return ""
+
+
 # ---- calls under test ------------------------------------------------------------------------------
 def api_export(df, v, px, fmt, variant):
     from cryocat import cryomotl
@@ -289,7 +307,9 @@ class Runner:
             got, ids = project_motl(back)
             ok = self.compare_rows(got, case["back"], ["x", "s", "R", "tomo", "cls", "geom3"],
                                    lambda f: "C03_RoundTrip", case, sig, "list imported from the exported table")
-            if ok:
+            if ok and invalid_projection([], ids):
+                self.fail("C03_HalfSets", "re-imported list: %s" % invalid_projection([], ids), case, sig)
+            elif ok:
                 subsets = [1 if p["sid"] % 2 == 1 else 2 for p in cs["parts"]]
                 self.traces.append(({"kind": "ids", "ids": ids, "subsets": subsets}, case, sig, "re-imported ids %s" % ids[:12]))
         elif op == "import":
@@ -310,7 +330,9 @@ class Runner:
             def clause_of(f):
                 return "C03_ImportPose" if f in ("x", "s", "R") else "C03_Identity"
             ok = self.compare_rows(got, case["back"], ["x", "s", "R", "tomo", "cls", "geom3"], clause_of, case, sig, "imported list")
-            if ok:
+            if ok and invalid_projection([], ids):
+                self.fail("C03_HalfSets", "imported list: %s" % invalid_projection([], ids), case, sig)
+            elif ok:
                 self.traces.append(({"kind": "ids", "ids": ids, "subsets": [r["subset"] for r in cs["rin"]]}, case, sig,
                                     "imported ids %s for subsets %s" % (ids[:12], [r["subset"] for r in cs["rin"]][:12])))
         else:
@@ -331,16 +353,20 @@ class Runner:
             return
         lines = su.file_lines(path)
         back, lerr = core.call_guarded(api_load, path, v, px, variant // 6)
-        loaded = {"ok": lerr is None, "rows": [], "ids": []}
+        loaded = {"ok": lerr is None, "valid": True, "rows": [], "ids": []}
+        bad = ""
         if lerr is None:
             loaded["rows"], loaded["ids"] = project_motl(back)
+            bad = invalid_projection(loaded["rows"], loaded["ids"])
+            if bad:
+                loaded.update({"valid": False, "rows": [], "ids": []})
             if DEMO == "corrupt_loaded" and loaded["rows"]:
                 loaded["rows"][0]["R"] = [2, 1, 3, 1, -1, 1] if loaded["rows"][0]["R"] != [2, 1, 3, 1, -1, 1] else [1, 2, 3, 1, 1, 1]
         os.remove(path)
         rec = {"kind": "file", "v": v, "fmt": cs["fmt"], "parts": cs["parts"], "optics": optics, "lines": lines,
                "spell": spelling(), "loaded": _jsonable(loaded)}
         head = su.b2s(sum([l + [10] for l in lines[:30]], []))[:700]
-        self.traces.append((rec, case, fsig, "load error: %s; file head: %r" % (lerr, head)))
+        self.traces.append((rec, case, fsig, "load error: %s; projection: %s; file head: %r" % (lerr, bad or "ok", head)))
 
     def validate(self, name):
         ctx = self.ctx
